@@ -99,6 +99,11 @@ class Models:
         if self.out_type == "np64":                   # NumPy scalars are legal numeric outputs
             import numpy as np
             return np.float64(n / 8.0)
+        if self.out_type == "np0d":                   # ... and so are 0-dimensional arrays
+            import numpy as np
+            return np.array(n / 8.0)
+        if self.out_type == "int":                    # integer-valued outputs: integer arithmetic paths (floor / truncation traps)
+            return int(n)
         return n / 8.0   # /8: float means of <=8 stay exact-ish
 
     def lab(self, l):
